@@ -86,6 +86,7 @@ def _c13(ctx):
     out.append(_idx1(ctx, None, 80))
     out.append(_x9(ctx, bounds.CODEC_FILES, 5, 200))
     out.append(_x10(ctx))
+    out.append(_x12(ctx))
     out.append(_x2v(ctx))
     # functions documented to give the strong guarantee (object unchanged when they throw)
     out.append(exc.rule_X3m(ctx, {NSP + 'NearestNeighbor::Initialize', NSP + 'NearestNeighbor::Load'}))
@@ -138,12 +139,32 @@ def _x9(ctx, files, fl_fns, fl_paths):
 X10_DECODERS = [NSP_ + x for NSP_ in ('GeographicLib::',) for x in ('GARS::Reverse', 'Georef::Reverse', 'Geohash::Reverse')]
 
 
+def _x10_both(ctx):
+    """X10 and X12 come out of one exploration of the decoders."""
+    c = getattr(ctx, '_x10_cache', None)
+    if c is None:
+        from .rules import decode
+        from .core import RuleResult
+        x12 = RuleResult('X12', 'every character counts: on every accepting path of the grid-code decoders, for every '
+                                'string length, each character of the string has been looked up in an alphabet or '
+                                'covered by a find_first_not_of(alphabet, pos) == npos test (Geohash: the first maxlen_ '
+                                'characters, as documented); a character that nothing examines can be anything, so a '
+                                'string that is not a code would be accepted')
+        r, nf, npaths = decode.rule_X10(ctx, X10_DECODERS, maxlen=(48 if ctx.tier == 'thorough' else 26), x12=x12,
+                                        truncate={'GeographicLib::Geohash::Reverse': 'GeographicLib::Geohash::maxlen_'})
+        r.floor('decoders', nf, 3)
+        r.floor('outputs x accepting paths x lengths', npaths, 150)
+        x12.floor('accepting paths x lengths judged', x12.obligations, 40)
+        c = ctx._x10_cache = (r, x12)
+    return c
+
+
 def _x10(ctx):
-    from .rules import decode
-    r, nf, npaths = decode.rule_X10(ctx, X10_DECODERS, maxlen=(48 if ctx.tier == 'thorough' else 26))
-    r.floor('decoders', nf, 3)
-    r.floor('outputs x accepting paths x lengths', npaths, 150)
-    return r
+    return _x10_both(ctx)[0]
+
+
+def _x12(ctx):
+    return _x10_both(ctx)[1]
 
 
 def _x2v(ctx):
@@ -241,7 +262,7 @@ def _c18(ctx):
         x7r, nsite, nproved = relidx.rule_X7r(ctx, ('src/GARS.cpp', 'src/Georef.cpp', 'src/OSGB.cpp', 'src/Geohash.cpp'))
         x7r.floor('subscript sites', nsite, 20)
         x7r.floor('sites proved on every path', nproved, 18)
-    return _exc_rules(ctx, 'C18') + [x7r, _w1(ctx, 'C18', 7), _x10(ctx), _x11(ctx), _x9(ctx, ('src/Geohash.cpp', 'src/GARS.cpp', 'src/Georef.cpp', 'src/OSGB.cpp'), 4, 80), _t3(ctx, {'Geohash', 'GARS', 'Georef', 'OSGB'}, 22),
+    return _exc_rules(ctx, 'C18') + [x7r, _w1(ctx, 'C18', 7), _x10(ctx), _x12(ctx), _x11(ctx), _x9(ctx, ('src/Geohash.cpp', 'src/GARS.cpp', 'src/Georef.cpp', 'src/OSGB.cpp'), 4, 80), _t3(ctx, {'Geohash', 'GARS', 'Georef', 'OSGB'}, 22),
                                       _x7(ctx, ('src/Geohash.cpp', 'src/GARS.cpp', 'src/Georef.cpp', 'src/OSGB.cpp'), 25, 20, 10)]
 
 
